@@ -33,14 +33,23 @@ def binom_tail(m: int, q: float, r: int) -> float:
 
 
 def _one_test(args):
+    try:
+        return _one_test_(args)
+    except Exception as e:  # noqa  (an exception of the implementation in a worker: reported by the parent with the input)
+        import traceback
+        return {"error": repr(e), "traceback": traceback.format_exc()[-1200:], "args": list(args)}
+
+
+def _one_test_(args):
     info, kind, N, kz, alpha, n, seed, k = args
     from causationentropy.core.discovery import shuffle_test
     from causationentropy.core.information.conditional_mutual_information import conditional_mutual_information as cmi
 
     rng = np.random.default_rng(seed)
     if kind == "count":
-        X = rng.poisson(3.0, size=(N, 1)).astype(float); Y = rng.poisson(2.0, size=(N, 1)).astype(float)
-        Z = rng.poisson(3.0, size=(N, kz)).astype(float) if kz else None
+        dt = float if seed % 2 else np.int64          # counts as floats, or as the integers a sampler returns
+        X = rng.poisson(3.0, size=(N, 1)).astype(dt); Y = rng.poisson(2.0, size=(N, 1)).astype(dt)
+        Z = rng.poisson(3.0, size=(N, kz)).astype(dt) if kz else None
     else:
         X = rng.standard_normal((N, 1)); Y = rng.standard_normal((N, 1)) ** (3 if seed % 2 else 1)
         Z = rng.standard_normal((N, kz)) if kz else None
@@ -54,16 +63,39 @@ def _one_test(args):
 
 
 def _one_discovery(args):
+    try:
+        return _one_discovery_(args)
+    except Exception as e:  # noqa
+        import traceback
+        return {"error": repr(e), "traceback": traceback.format_exc()[-1200:], "args": list(args)}
+
+
+def _one_discovery_(args):
     info, method, n_vars, L, T, alpha, n, seed, kind, k = args[:10]
     alpha_f = args[10] if len(args) > 10 else alpha      # (forward level, when different from the final, backward, level)
     from common import EntryPoints
     discover_network = EntryPoints("discover_network", "causationentropy.core.discovery", "causationentropy.core", "causationentropy")   # every public path, in turn
     rng = np.random.default_rng(seed)
-    data = rng.poisson(3.0, size=(T, n_vars)).astype(float) if kind == "count" else rng.standard_normal((T, n_vars))
+    data = rng.poisson(3.0, size=(T, n_vars)).astype(float if seed % 2 else np.int64) if kind == "count" else rng.standard_normal((T, n_vars))
     with warnings.catch_warnings(), quiet():
         warnings.simplefilter("ignore")
         G = discover_network(data, method=method, information=info, max_lag=L, alpha_forward=alpha_f, alpha_backward=alpha, n_shuffles=n, k_means=k)
     return G.number_of_edges() / float(n_vars * n_vars * L)
+
+
+def _errors_out(run, results, what):
+    """exceptions raised by the implementation inside worker processes -> property failures (first few), entries replaced by None"""
+    out, seen = [], 0
+    for r in results:
+        if isinstance(r, dict) and "error" in r:
+            seen += 1
+            if seen <= 3:
+                run.prop_fail(f"{what} raises on independent data the property quantifies over", {"worker_args": r["args"], "exception": r["error"]},
+                              {"clause": "total"}, r["traceback"])
+            out.append(None)
+        else:
+            out.append(r)
+    return out
 
 
 def check(run, driver):
@@ -101,6 +133,7 @@ def check(run, driver):
             tasks.append((info, kind, N, t % 2, alpha, n, int(rng.integers(0, 2**31)), 3))
     with ProcessPoolExecutor(16) as ex:
         results = list(ex.map(_one_test, tasks, chunksize=4))
+    results = _errors_out(run, results, "shuffle_test")
     idx = 0
     table = []
     for (info, kind, N, alpha, n, m) in plans:
@@ -124,21 +157,24 @@ def check(run, driver):
         for method in ("standard", "alternative"):
             cheap = info in ("gaussian", "knn", "kde")
             m = (400 if cheap else 32) if thorough else (128 if info != "kde" else 64)
-            dplans.append((info, method, m))
+            dplans.append((info, method, m, "count" if info == "poisson" else "continuous"))
+    for method in ("standard", "alternative"):       # count-valued white noise (integer and float presentations) under the default estimator
+        dplans.append(("gaussian", method, 400 if thorough else 128, "count"))
     dtasks = []
-    for info, method, m in dplans:
+    for info, method, m, kind_ in dplans:
         for t in range(m):
             dtasks.append((info, method, 3, 2, 40 if info in ("geometric_knn", "poisson") else 60, 0.05, 19 if info not in ("poisson",) else 9,
-                           int(rng.integers(0, 2**31)), "count" if info == "poisson" else "continuous", 3))
+                           int(rng.integers(0, 2**31)), kind_, 3))
     with ProcessPoolExecutor(16) as ex:
         fr = list(ex.map(_one_discovery, dtasks, chunksize=2))
+    fr = [1.0 if x is None else x for x in _errors_out(run, fr, "discover_network")]
     idx = 0
     dtable = []
-    for info, method, m in dplans:
+    for info, method, m, kind_ in dplans:
         f = fr[idx: idx + m]; idx += m
         mean = float(np.mean(f))
         slack = math.sqrt(math.log(ntests / BUDGET) / (2 * m))
-        row = {"estimator": info, "method": method, "runs": m, "mean_fraction_of_candidate_links": mean, "hoeffding_slack": slack, "alarm_above": 5 * 0.05 + slack}
+        row = {"estimator": info, "method": method, "data": kind_, "runs": m, "mean_fraction_of_candidate_links": mean, "hoeffding_slack": slack, "alarm_above": 5 * 0.05 + slack}
         dtable.append(row)
         for x in f:
             run.case("noise-" + info + "-" + method, [info, method, x, len(run.distinct)], True)
@@ -152,6 +188,7 @@ def check(run, driver):
     stasks = [(info, method, 3, 2, 60, a_b, n_s, int(rng.integers(0, 2**31)), "continuous", 3, a_f) for info, method in splans for _ in range(m_s if info == "gaussian" else 512)]
     with ProcessPoolExecutor(16) as ex:
         sfr = list(ex.map(_one_discovery, stasks, chunksize=16))
+    sfr = [1.0 if x is None else x for x in _errors_out(run, sfr, "discover_network")]
     idx = 0
     for info, method in splans:
         m = m_s if info == "gaussian" else 512
